@@ -1149,16 +1149,19 @@ def short(x, n=300):
 
 
 # source translator (DESIGN.md 3.2): part of the model is regenerated from the source text on every run
-TRUSTED = list(TRUSTED) + [py2lean.trusted_note("graph")]
+TRUSTED = list(TRUSTED) + [py2lean.trusted_note("graph"), py2lean.trusted_note("ghentry")]
 # Props/C05C17.lean (the composition with C05's model of `estimate`, 8 of the CORE_THEOREMS) stays in the list that
 # check.py builds and axiom-audits
 HAND_FILES = ["PersimVerif/Props/C17.lean", "PersimVerif/Props/C05C17.lean"]
-PROP_FILES = HAND_FILES + py2lean.prop_files("graph")
+# key "ghentry" (py2lean_ghentry.py): the WHOLE of gromov_hausdorff / make_distance_matrix_from_adjacency_matrix / the int-type
+# cast, statement by statement (Generated/SrcGHEntry.lean), and its composition with the `estimate` that key "mgh" translates
+# (Lemmas/SrcGHEntryPublic.lean imports Generated/SrcMGH.lean, which check.py regenerates with the import closure)
+PROP_FILES = HAND_FILES + py2lean.prop_files("graph") + py2lean.prop_files("ghentry")
 
 
 def pre_build(ctx):
     """source translator: regenerate Generated/Src*.lean from PERSIM_ROOT's source"""
-    py2lean.pre_build(ctx, ("graph",))
+    py2lean.pre_build(ctx, ("graph", "ghentry", "mgh"))
 
 
 DEFAULT_FILTER_STMT = "persim.gromov_hausdorff(np.array([[0,1,0,0],[1,0,0,0],[0,0,0,1],[0,0,1,0]]), np.array([[0,1],[1,0]]))"
@@ -1329,4 +1332,4 @@ MANIFEST = {
             "repaired in the code (eliminate_zeros after tocsr) is reported to the maintainers of known_findings.txt.",
     "technique": "Lean 4 theorems over a hand-written model + differential correspondence with the real code",
 }
-MANIFEST["note"] += " " + py2lean.manifest_note("graph")
+MANIFEST["note"] += " " + py2lean.manifest_note("graph") + " " + py2lean.manifest_note("ghentry")
